@@ -1495,6 +1495,11 @@ class Interp:
         n = e['name']
         if n == 'quote':
             return self.quote(e, env)
+        if n == 'format_ident':
+            # quote's format_ident!(fmt, args..) is Ident::new(&format!(fmt, args..), Span::call_site()) (its `span = ..` argument only moves the span;
+            # Ident arguments are formatted without a raw prefix, like their text)
+            e2 = dict(e, name='format', args=[a for a in (e.get('args') or []) if not (a.get('k') == 'Assign')])
+            return ('call', 'Ident::new', [self.e_Macro(e2, env)])
         if n == 'format':
             args = e.get('args') or []
             tmpl = args[0]['v'] if args and args[0]['k'] == 'Lit' else '?'
